@@ -291,7 +291,15 @@ func GenRecSystem(t *rapid.T) (*Grammar, map[string]bool) {
 			}
 			return SubU(u)
 		}
-		switch rapid.IntRange(0, 10).Draw(t, "np") {
+		switch rapid.IntRange(0, 12).Draw(t, "np") {
+		case 11, 12:
+			// one or more of something optional, in the bracket spelling with the modifier right behind it: [ x ]+ , { x }+
+			used["after_plus_of_bracket_group"] = true
+			inner := Group(rapid.SampledFrom([]string{"?", "*"}).Draw(t, "bracketkind"), leaf())
+			inner.Style = 1
+			outer := Group("+", inner)
+			outer.Style = 2
+			return outer
 		case 10:
 			// the empty literal: takes any token, and at the end of the input the EOF token without consuming it
 			used["after_empty_literal"] = true
